@@ -59,6 +59,8 @@ namespace OpenMEEG {
             open(std::ios_base::out);
             save(mesh,fs);
             fs.close();
+            if (fs.fail())
+                throw OpenMEEG::IOException(std::string("Error while writing the file ")+fname);
         }
 
     protected:
